@@ -7,7 +7,7 @@ VARIABLES a, c
 vars == <<a, c>>
 ArgSpace == [src : {s \in SUBSET Sources : Cardinality(s) <= MaxSources}, tgt : SUBSET TargetArgs, allc : BOOLEAN,
              comp : CompSet, fmt : FormatSet, ex : ExampleSet, disableOr : BOOLEAN, redundantOr : BOOLEAN]
-CallSpace == [thrnum : {-1, 0, 1, 50, 100, 101}, thrden : {100}, ofmt : {"ShEx", "Shacl", "bogus"}, string : BOOLEAN, file : BOOLEAN, uml : {FALSE}]
+CallSpace == [thrnum : {-1, 0, 1, 50, 100, 101}, thrden : {100}, ofmt : {"ShEx", "Shacl", "bogus"}, string : BOOLEAN, file : BOOLEAN, uml : BOOLEAN]
 A0 == [src |-> {"raw_graph"}, tgt |-> {}, allc |-> TRUE, comp |-> "none", fmt |-> "nt", ex |-> "none", disableOr |-> TRUE, redundantOr |-> FALSE]
 C0 == [thrnum |-> 0, thrden |-> 100, ofmt |-> "ShEx", string |-> TRUE, file |-> FALSE, uml |-> FALSE]
 Init == (a \in ArgSpace /\ c = C0) \/ (a = A0 /\ c \in CallSpace)
